@@ -200,6 +200,9 @@ def tasks(tier, seed, selftest=False):
         S.append(dict(family="D3", skeleton=(o,), timebox=20 if q else 900))
     for o in ("fulldfs", "build"):
         S.append(dict(family="U3", skeleton=(o,), timebox=15 if q else 900, cube_k=3 if q else 5, nbits=24))
+    # two independent switches: partial diagrams that contain every node of the full one but not every edge
+    for sk in (("succ", "succ"), ("succ", "succ", "succ"), ("bfs", "succ"), ("succ", "dfs")):
+        S.append(dict(family="P:SW2+SW2", skeleton=sk, timebox=15 if q else 600))
     pairs = list(itertools.product(OPS, repeat=2))
     for sk in pairs:
         S.append(dict(family="U2", skeleton=sk, timebox=5 if q else 900))
